@@ -2,8 +2,9 @@
 
 Six base programs (transitions / needs, do + relative addressing + quoted strings, aux + clones,
 action contexts + markers + rear/raze, several framers with bids, a script-level mix with init).
-A symbolic choice picks one command of the program and a set of layout edits for it (and, in the
-thorough tier, one more edit on the following command):
+A symbolic choice picks one command of the program and a set of layout edits for it (quick: any 1
+or 2 edits; thorough adds: 1 edit plus an edit on the following command, and any 1..3 edits from a
+reduced edit alphabet):
 
   indentation           0 / 1 / 3 / 7 spaces, a tab, two tabs
   backslash split       at any token boundary ("... \\" newline rest), with or without a blank
@@ -36,8 +37,9 @@ ASSUMPTIONS = [
     "the bounded edit space was exhausted",
     "six fixed base programs (listed in bounds); no logger / server commands (their run touches the file system "
     "and sockets)",
-    "edits on one command (quick: any 1 or 2 edits; thorough: any 1..3 edits plus at most one edit on the next "
-    "command); splits only at token boundaries; comments never contain a backslash-newline",
+    "edits on one command (quick: any 1 or 2 edits; thorough also: 1 edit + at most one edit on the next command, and "
+    "any 1..3 edits from a reduced edit alphabet); splits only at token boundaries; comments never contain a "
+    "backslash-newline; a failing edit set is minimised and the minimal set names the counterexample class",
     "line counts (Act.count) are excluded from the comparison: they legitimately change with the layout",
     "run = flobuild.run_ticks: every taskable is sent its desire once per tick in house order, stamps advance by "
     "0.125 s as floats (concrete run, no symbolic time); wall-clock shares .realtime/.datetime are masked",
@@ -199,8 +201,15 @@ def commands(program):
 COMMANDS = [commands(p) for p in PROGRAMS]
 
 
-def edits_for(tokens):
+def edits_for(tokens, reduced=False):
     """the edit alphabet of one command: (attr, value) pairs; two edits combine iff attrs differ"""
+    if reduced:     # for triples: one value per non-break attribute class that behaves differently
+        E = [("indent", 1), ("indent", 4)]
+        for j in range(1, len(tokens)):
+            E.append((("break", j), "bs "))
+            if tokens[j] in Connectives:
+                E.append((("break", j), "conn"))
+        return E + [("spacer", 0), ("spacer", 1), ("before", 1), ("trail", 1), ("trail1", 0)]
     E = [("indent", i) for i in range(1, len(INDENTS))]
     for j in range(1, len(tokens)):
         E.append((("break", j), "bs "))       # backslash with a blank before it
@@ -279,9 +288,9 @@ def edit_label(attr, value):
     return attr
 
 
-def h(sym, pi, ci, nedits, nextedit):
+def h(sym, pi, ci, nedits, nextedit, reduced=False):
     cmds = COMMANDS[pi]
-    E = edits_for(cmds[ci][1])
+    E = edits_for(cmds[ci][1], reduced)
     picked = []
     lo = 0
     for n in range(nedits):
@@ -326,41 +335,73 @@ def h(sym, pi, ci, nedits, nextedit):
         else:
             canon = got = text = None
     sym.assume(ok)
-    sym.check(canon[0] == "ok", "C16/harness/canonical-program-does-not-build", str(canon[:3])[:200])
-    kinds = sorted(set(edit_label(a, v) for a, v in attrs.items()))
-    if e2 is not None:
-        kinds.append("next-" + edit_label(e2[0], e2[1]))
-    label = "+".join(kinds)
-    shown = "".join(render_command(*cmds[i], ebi.get(i, {})) for i in sorted(ebi))
+    sym.check(canon[0] == "ok", "C16/canonical-program-does-not-build", str(canon[:3])[:200])
+    sym.note("script", text)
+    symptom = symptom_of(canon, got)
+    if symptom is None:
+        sym.cover("same")
+        return True
+    with fb.notrace(sym):
+        # localise: the smallest subset of the edits that already changes the result names the class
+        items = [(ci, a, v) for a, v in sorted(attrs.items(), key=repr)]
+        if e2 is not None:
+            items.append((ci + 1, e2[0], e2[1]))
+        best = items
+        import itertools
+        found = False
+        for size in range(1, len(items)):
+            for sub in itertools.combinations(items, size):
+                sub_ebi = {}
+                for c, a, v in sub:
+                    sub_ebi.setdefault(c, {})[a] = v
+                if any("spacer" in d and not any(isinstance(k, tuple) and v == "conn" for k, v in d.items())
+                       for d in sub_ebi.values()):
+                    continue
+                if symptom_of(canon, observe(render(cmds, sub_ebi))) is not None:
+                    best, found = list(sub), True
+                    break
+            if found:
+                break
+        label = "+".join(sorted(set(("next-" if c != ci else "") + edit_label(a, v) for c, a, v in best)))
+        shown = "".join(render_command(*cmds[i], ebi.get(i, {})) for i in sorted(ebi))
+    sym.fail("C16/%s/%s" % (label, symptom[0]), "%r: %s" % (shown, symptom[1]))
+
+
+def symptom_of(canon, got):
     if got[0] != "ok":
-        sym.fail("C16/%s/relaid-script-does-not-build" % label, "%r -> %s" % (shown, " ".join(map(str, got))[:160]))
-    sym.check(got[1] == canon[1], "C16/%s/built-house-differs" % label,
-              "%r: %s" % (shown, fb.first_diff(canon[1], got[1])[:200]))
-    sym.check(got[2] == canon[2], "C16/%s/run-trace-differs" % label,
-              "%r: %s" % (shown, fb.first_diff(canon[2], got[2])[:200]))
-    sym.cover("same")
-    return True
+        return ("relaid-script-does-not-build", " ".join(map(str, got))[:160])
+    if got[1] != canon[1]:
+        return ("built-house-differs", fb.first_diff(canon[1], got[1])[:200])
+    if got[2] != canon[2]:
+        return ("run-trace-differs", fb.first_diff(canon[2], got[2])[:200])
+    return None
 
 
 def obligations(tier):
     quick = tier == "quick"
     out = []
+    common = dict(indents=INDENTS, before=BEFORE, trailing=TRAIL, spacer=SPACER, ticks=3)
     for pi, cmds in enumerate(COMMANDS):
-        # shard by blocks of commands
-        block = 3 if quick else 1
+        block = 3
         for c0 in range(1, len(cmds), block):     # command 0 is `house`
-            for ci in range(c0, min(c0 + block, len(cmds))):
-                pass
-            out.append(Ob("layout/p%d/cmd%d-%d" % (pi + 1, c0, min(c0 + block, len(cmds)) - 1), h_block,
-                          dict(pi=pi, c0=c0, c1=min(c0 + block, len(cmds)), nedits=2 if quick else 3,
-                               nextedit=not quick),
-                          budget=400 if quick else 1500, per_path=20, covers=["same"],
-                          bounds=dict(program=PROGRAMS[pi].splitlines(), edits_on_one_command="<= %d" % (2 if quick else 3),
-                                      edit_on_next_command=not quick, indents=INDENTS, before=BEFORE, trailing=TRAIL,
-                                      spacer=SPACER, ticks=3)))
+            c1 = min(c0 + block, len(cmds))
+            name = "p%d/cmd%d-%d" % (pi + 1, c0, c1 - 1)
+            prog = PROGRAMS[pi].splitlines()
+            out.append(Ob("layout/" + name, h_block, dict(pi=pi, c0=c0, c1=c1, nedits=2, nextedit=False),
+                          budget=400 if quick else 1500, per_path=60, covers=["same"],
+                          bounds=dict(common, program=prog, edits_on_one_command="any 1 or 2")))
+            if not quick:
+                out.append(Ob("cross/" + name, h_block, dict(pi=pi, c0=c0, c1=c1, nedits=1, nextedit=True),
+                              budget=1500, per_path=60, covers=["same"],
+                              bounds=dict(common, program=prog, edits="1 on the command + 0..1 on the next command")))
+                out.append(Ob("triple/" + name, h_block, dict(pi=pi, c0=c0, c1=c1, nedits=3, nextedit=False, reduced=True),
+                              budget=2400, per_path=60, covers=["same"],
+                              bounds=dict(common, program=prog, edits_on_one_command="any 1..3 from the reduced edit "
+                                          "alphabet (1 blank / tab indent, every backslash and connective split, both "
+                                          "spacers, comment line before, trailing comments)")))
     return out
 
 
-def h_block(sym, pi, c0, c1, nedits, nextedit):
+def h_block(sym, pi, c0, c1, nedits, nextedit, reduced=False):
     ci = c0 + (sym.choice("cmd", c1 - c0) if c1 - c0 > 1 else 0)
-    return h(sym, pi, ci, nedits, nextedit)
+    return h(sym, pi, ci, nedits, nextedit, reduced)
